@@ -444,6 +444,17 @@ static void exec_c14(const Plan& p, Outcome& out) {
             pb.free();
           }
         }
+        if (aliased && L > keys.size() + 1) {
+          // probes that START AT THE SAME ADDRESS as the stored names but have a length no name has: not found
+          for (size_t len : {(size_t)0, L - keys.size(), L - keys.size() - 1}) {
+            long e = (long)d.Size();
+            long i1 = d.FindMember(kb[0].data, len) - d.MemberBegin(), i2 = d.FindMember(StringView(kb[0].data, len)) - d.MemberBegin();
+            g_cmp_cases++;
+            out.detail = "probe of length " + std::to_string(len) + " at the address of the stored names" + (with_map ? " with map" : " linear");
+            if (i1 != e || i2 != e || d.HasMember(StringView(kb[0].data, len)))
+              violate("model", "KeyLookup:result", "a key that starts at a stored name's address but has another length was found: FindMember(ptr,len)=" + std::to_string(i1) + " FindMember(view)=" + std::to_string(i2) + " of " + std::to_string(e));
+          }
+        }
         if (with_map) probe("c14_lookup_with_map"); else probe("c14_lookup_linear");
         // destroy before releasing key storage
         { DSim tmp; d.Swap(tmp); }
